@@ -501,7 +501,8 @@ class Interp:
         mode = getattr(self.reg, "assert_mode", "raise")
         if mode == "prove":
             fn = fr.fdef.key if fr.fdef else "?"
-            self.ctx.prove(c, f"assert@{fn}:{s.lineno}", {"kind": "assert", "line": s.lineno, "src": ast.unparse(s.test)})
+            self.ctx.prove(c, f"assert@{fn}:{ast.unparse(s.test)}",
+                           {"kind": "assert", "line": s.lineno, "src": ast.unparse(s.test), "function": fn.split(":")[-1]})
             self.ctx.assume(c)
         else:
             if not self.ctx.branch(c, f"assert@{s.lineno}"):
